@@ -155,6 +155,11 @@ func trustedResourceURLFormat(format string, args map[string]string) (TrustedRes
 		// segments or URL components.
 		return safehtmlutil.QueryEscapeURL(argVal)
 	})
+	if err == nil && safehtmlutil.URLContainsDoubleDotSegment(ret) && !safehtmlutil.URLContainsDoubleDotSegment(format) {
+		// Arguments that are harmless on their own can still form the ".." dot-segment together
+		// with their neighbours, e.g. "." next to "." or "e." after "%2".
+		return TrustedResourceURL{}, fmt.Errorf(`arguments for format string %q must not form ".." with adjacent text`, format)
+	}
 	if err == nil && startsWithTwoSlashes(ret) && !strings.HasPrefix(format, "//") {
 		// An empty argument right after the leading slash of a path-absolute format would turn
 		// the path into a scheme-relative URL whose host is the next path segment.
@@ -222,5 +227,10 @@ func TrustedResourceURLAppend(t TrustedResourceURL, s string) (TrustedResourceUR
 		// a resource higher up in the path name hierarchy than the path of the TrustedResourceURL appended to.
 		return TrustedResourceURL{}, fmt.Errorf(`cannot append %q to TrustedResourceURL %q: the appended string must not contain ".."`, s, t)
 	}
-	return TrustedResourceURL{t.str + safehtmlutil.QueryEscapeURL(s)}, nil
+	ret := t.str + safehtmlutil.QueryEscapeURL(s)
+	if safehtmlutil.URLContainsDoubleDotSegment(ret) && !safehtmlutil.URLContainsDoubleDotSegment(t.str) {
+		// A "." appended to a URL that ends in "." or "%2e" forms the ".." dot-segment.
+		return TrustedResourceURL{}, fmt.Errorf(`cannot append %q to TrustedResourceURL %q: the result must not contain ".."`, s, t)
+	}
+	return TrustedResourceURL{ret}, nil
 }
